@@ -402,7 +402,13 @@ struct LcSim : Harness {
   }
 
   // T1: the MIR of a function as seen through the API (MIR_output_item) is the same before and after an event
-  std::string snap_text(Fn &f) { return norm_labels(item_text(ctx, f.item)); }
+  // function item text plus the lref/ref data items of its module (their labels are rewired by duplicate/restore too)
+  std::string snap_text(Fn &f) {
+    std::string t = item_text(ctx, f.item);
+    for (MIR_item_t it = DLIST_HEAD(MIR_item_t, mods[f.mod].m->items); it; it = DLIST_NEXT(MIR_item_t, it))
+      if (it->item_type == MIR_lref_data_item) t += item_text(ctx, it);
+    return norm_labels(t);
+  }
   void check_text(Fn &f, const std::string &before, Outcome &out, const char *when) {
     std::string t = snap_text(f);
     if (t != before) {
@@ -677,8 +683,10 @@ struct LcSim : Harness {
       for (auto &op : plan.at("ops").a) if (op.k == Json::Arr && op.size() > 1 && (op[0].s == "scan" || op[0].s == "c2m" || op[0].s == "bin")) ops.push(op);  // same creation routes
       for (size_t mi = 0; mi < nm; mi++) { push({"scan", (long long) mi}); push({"load", (long long) mi}); }
       push({"link", 2, 0});
-      p.set("ops", ops); p["knobs"].erase("reenter"); p["knobs"].set("placement", (int) P_PACKED_FAR);
+      if (!was_hang) for (auto &op : plan.at("ops").a) if (op.k == Json::Arr && op.size() > 1 && (op[0].s == "call" || op[0].s == "interp")) { Json cc = op; cc[0] = Json("call"); ops.push(cc); }  // and the same executions
+      p.set("ops", ops); p["knobs"].set("placement", (int) P_PACKED_FAR);
       ChildEnd c = run_isolated(*this, p, tmo, false);
+      if (c.status == "violation" && (c.cls == "wrong_result" || c.cls == "wrong_ext_log")) c.status = "crash", c.sig = "wrong_value_instead";  // the plain history miscomputes: program-level as well
       if (was_hang && c.status == "hang") { e.cls = "side_program_level_generator_hang"; e.sig = "watchdog"; e.detail = "the plain history scan/load/link(eager, -O" + std::to_string(level) + ") of the same program does not terminate within the watchdog either"; return; }
       if (c.status != "crash" && uses_bb) {  // the same with the lazy basic-block generator and the same calls
         Json q = p; Json &qo = q["ops"]; qo.a.back() = Json::array(); qo.a.back().push("link"); qo.a.back().push(4); qo.a.back().push(0);
